@@ -181,6 +181,34 @@ def main(argv):
         functions += kr['functions']
         assumptions += kr['assumptions']
 
+    # ---- property-level combination rules
+    waived = []
+    if pc.get('combine') == 'gc_two_sided':
+        # C01: the per-type trace obligations come in two families (mark = M, blacken = B). The heap is safe if EVERY
+        # mark is complete (all reachable objects grey after mark_roots, each grey is blackened) OR EVERY blacken is
+        # complete (transitive closure of grey roots is black). A violation needs failures on both sides.
+        tr = [o for o in obligations if o['unit'] == 'gc_trace']
+        for o in tr:
+            o['side'] = 'M' if o['fn'].endswith('::mark') else ('B' if o['fn'].endswith('::blacken') else None)
+        # the `body` obligation of a trace fn is the conjunction of its member obligations: drop it when a member explains it
+        for o in tr:
+            if o['kind'] == 'body' and o['status'] == 'refuted' and any(
+                    p_['fn'] == o['fn'] and p_['kind'] != 'body' and p_['status'] == 'refuted' for p_ in tr):
+                o['status'] = 'discharged'
+                o['detail'] = 'implied by the refuted member obligation(s) of the same function\n' + o.get('detail', '')
+                o['implied'] = True
+        bad_m = [o for o in tr if o['status'] == 'refuted' and o['side'] == 'M']
+        bad_b = [o for o in tr if o['status'] == 'refuted' and o['side'] == 'B']
+        if (bad_m and not bad_b) or (bad_b and not bad_m):
+            und_side = [o for o in tr if o['status'] == 'undecided' and o['side'] == ('B' if bad_m else 'M')]
+            if not und_side:
+                for o in bad_m + bad_b:
+                    o['status'] = 'waived'
+                    waived.append(o)
+                    print('INFO property=%s %s is not established, but every %s obligation is: reachable objects still survive (redundant traversal missing)'
+                          % (a.prop, o['name'], 'blacken' if bad_m else 'mark'))
+        obligations = [o for o in obligations if not o.get('implied')]
+
     # ---- verdict
     kf = [k for k in known_findings() if k.get('property') == a.prop]
     refuted = [o for o in obligations if o['status'] == 'refuted']
@@ -203,6 +231,10 @@ def main(argv):
                 f.write('\n---- counterexample replayed natively against the real crate ----\n%s\n' % o['replay_text'])
         tail = '' if o.get('replay_kind') else ' no-failing-input-found'
         lines.append('VIOLATION property=%s replay=%s obligation=%s%s' % (a.prop, rp, o['name'], tail))
+    obligations = [o for o in obligations if o['status'] != 'waived']
+    backend_count = {'verus': len([o for o in obligations if o['backend'] == 'verus']),
+                     'kani_complete': len([o for o in obligations if o['backend'] == 'kani' and not o.get('bounded')]),
+                     'kani_bounded': len([o for o in obligations if o['backend'] == 'kani' and o.get('bounded')])}
     nob = len(obligations)
     ndis = len([o for o in obligations if o['status'] == 'discharged'])
     if nob == 0 and not undecided:
@@ -222,6 +254,7 @@ def main(argv):
             'rewrites_applied': rewrites, 'extraction_drops': sorted(set(dropped)),
             'rewrite_rules': {k: v for k, v in rw.DESCRIPTIONS.items() if any(r.startswith(k + ' ') for r in rewrites)},
             'not_covered': pc.get('not_covered', []),
+            'waived': [{'obligation': o['name'], 'why': 'other traversal complete'} for o in waived],
             'samples': [{'obligation': o['name'], 'backend': o['backend'], 'status': o['status'], 'clause': o['clause']} for o in obligations[:400]],
             'explanation': pc.get('explanation', ''),
         },
